@@ -422,7 +422,7 @@ def r12_recur_rebinds_exactly_the_arguments_written(ctx):
     C08.r5_recur_point_carries_the_flag_of_its_own_arity(_As(ctx, "C01.R12"))
 
 
-@rule("C01.R13", floor=8)
+@rule("C01.R13", floor=6)
 def r13_operands_hold_the_values_they_had_when_evaluated(ctx):
     """The value a form denotes is computed from the values its operands had when each was evaluated,
     in order.  An operand that is a bare name -- a local, or the module global a direct-linked Var of
